@@ -212,7 +212,7 @@ fn code_blob(which: u64) -> &'static [u8] {
     &blobs[(which as usize) % blobs.len()]
 }
 
-pub const INPUT_CLASSES: &[&str] = &["empty", "const", "periodic", "random", "mixed", "text", "code", "counter", "incomp_then_comp", "far_repeat", "zero", "lowent", "copies"];
+pub const INPUT_CLASSES: &[&str] = &["empty", "const", "periodic", "random", "mixed", "text", "code", "counter", "incomp_then_comp", "far_repeat", "zero", "lowent", "copies", "sandwich"];
 
 impl InputSpec {
     pub fn new(class: &str, len: usize, seed: u64) -> Self {
@@ -302,6 +302,20 @@ impl InputSpec {
                     *b = blob[(off + i) % blob.len()];
                 }
             }
+            "sandwich" => {
+                // compressible head (p1 bytes), incompressible middle (p2 bytes), compressible
+                // tail: LZMA2 encoders store the middle as uncompressed chunks and have to reset
+                // the coder state (control 0xA0 / 0xC0, no dictionary reset) for the tail
+                let head = (self.p1 as usize).min(n);
+                let mid = (self.p2 as usize).min(n - head);
+                for (i, b) in out[..head].iter_mut().enumerate() {
+                    *b = TEXT[i % TEXT.len()];
+                }
+                rng.fill(&mut out[head..head + mid]);
+                for (i, b) in out[head + mid..].iter_mut().enumerate() {
+                    *b = TEXT[(i + 777) % TEXT.len()];
+                }
+            }
             "incomp_then_comp" => {
                 let cut = ((self.p1 as usize).min(100) * n) / 100;
                 rng.fill(&mut out[..cut]);
@@ -378,6 +392,18 @@ pub fn random_input(rng: &mut Rng, len: usize, dict: u32) -> InputSpec {
     if len == 0 {
         s.class = "empty".into();
     }
+    s
+}
+
+/// A "sandwich" input large enough for an LZMA2 encoder to emit full uncompressed chunks in the
+/// middle (> 128 KiB of noise) and a state-reset chunk of at most 64 KiB for the tail.
+pub fn sandwich_input(rng: &mut Rng) -> InputSpec {
+    let head = rng.urange(2_000, 50_000);
+    let mid = rng.urange(132_000, 210_000);
+    let tail = if rng.pct(70) { rng.urange(1, 60_000) } else { rng.urange(60_000, 140_000) };
+    let mut s = InputSpec::new("sandwich", head + mid + tail, rng.next_u64());
+    s.p1 = head as u64;
+    s.p2 = mid as u64;
     s
 }
 
